@@ -5,7 +5,7 @@ from .. import gen
 THEOREMS = ['tags_faithful', 'tags_too_big_err', 'tags_count_too_big_err', 'tags_small_buffer_err', 'tags_never_panics',
             'event_faithful', 'event_tags_too_big_err', 'event_too_big_err', 'event_small_buffer_err',
             'event_never_panics', 'filter_faithful', 'filter_counts_too_big_err', 'filter_tags_too_big_err',
-            'filter_small_buffer_err', 'filter_never_panics', 'utf8_constants_from_source', 'event_layout_from_source', 'tags_layout_from_source', 'tags_writer_from_source', 'filter_header_from_source', 'filter_arrays_from_source']
+            'filter_small_buffer_err', 'filter_never_panics', 'utf8_constants_from_source', 'event_layout_from_source', 'tags_layout_from_source', 'tags_writer_from_source', 'filter_header_from_source', 'filter_arrays_from_source', 'rejections_from_source']
 
 
 def tags_size(ts):
